@@ -615,3 +615,49 @@ func SameEvents(a, b []Event) bool {
 func IsPrefix(a, b []Event) bool {
 	return len(a) <= len(b) && SameEvents(a, b[:len(a)])
 }
+
+// Tap forwards every basic and by-reference event to the embedded ExtVisitor after calling
+// Before(n) with the running event index (GC injection, fault injection, ...). Extended
+// array/map events are forwarded untouched and count as one event each.
+type Tap struct {
+	structform.ExtVisitor
+	Before func(n int)
+	N      int
+}
+
+func (t *Tap) tick() {
+	if t.Before != nil {
+		t.Before(t.N)
+	}
+	t.N++
+}
+
+func (t *Tap) OnObjectStart(l int, bt structform.BaseType) error {
+	t.tick()
+	return t.ExtVisitor.OnObjectStart(l, bt)
+}
+func (t *Tap) OnObjectFinished() error { t.tick(); return t.ExtVisitor.OnObjectFinished() }
+func (t *Tap) OnKey(s string) error    { t.tick(); return t.ExtVisitor.OnKey(s) }
+func (t *Tap) OnKeyRef(s []byte) error { t.tick(); return t.ExtVisitor.OnKeyRef(s) }
+func (t *Tap) OnArrayStart(l int, bt structform.BaseType) error {
+	t.tick()
+	return t.ExtVisitor.OnArrayStart(l, bt)
+}
+func (t *Tap) OnArrayFinished() error     { t.tick(); return t.ExtVisitor.OnArrayFinished() }
+func (t *Tap) OnNil() error               { t.tick(); return t.ExtVisitor.OnNil() }
+func (t *Tap) OnBool(b bool) error        { t.tick(); return t.ExtVisitor.OnBool(b) }
+func (t *Tap) OnString(s string) error    { t.tick(); return t.ExtVisitor.OnString(s) }
+func (t *Tap) OnStringRef(s []byte) error { t.tick(); return t.ExtVisitor.OnStringRef(s) }
+func (t *Tap) OnInt8(i int8) error        { t.tick(); return t.ExtVisitor.OnInt8(i) }
+func (t *Tap) OnInt16(i int16) error      { t.tick(); return t.ExtVisitor.OnInt16(i) }
+func (t *Tap) OnInt32(i int32) error      { t.tick(); return t.ExtVisitor.OnInt32(i) }
+func (t *Tap) OnInt64(i int64) error      { t.tick(); return t.ExtVisitor.OnInt64(i) }
+func (t *Tap) OnInt(i int) error          { t.tick(); return t.ExtVisitor.OnInt(i) }
+func (t *Tap) OnByte(b byte) error        { t.tick(); return t.ExtVisitor.OnByte(b) }
+func (t *Tap) OnUint8(u uint8) error      { t.tick(); return t.ExtVisitor.OnUint8(u) }
+func (t *Tap) OnUint16(u uint16) error    { t.tick(); return t.ExtVisitor.OnUint16(u) }
+func (t *Tap) OnUint32(u uint32) error    { t.tick(); return t.ExtVisitor.OnUint32(u) }
+func (t *Tap) OnUint64(u uint64) error    { t.tick(); return t.ExtVisitor.OnUint64(u) }
+func (t *Tap) OnUint(u uint) error        { t.tick(); return t.ExtVisitor.OnUint(u) }
+func (t *Tap) OnFloat32(f float32) error  { t.tick(); return t.ExtVisitor.OnFloat32(f) }
+func (t *Tap) OnFloat64(f float64) error  { t.tick(); return t.ExtVisitor.OnFloat64(f) }
